@@ -95,6 +95,7 @@ structure St where
   hp : Plan := {}
   cp : Plan := {}
   rp : RespPlan := {}
+  interim : List Nat := []
   wres : String := ""
   cres : String := ""
 
@@ -157,9 +158,9 @@ def e2e (s : St) (method path : String) (cl : Int) (nobody : Bool) (h : Fields)
     let (body, e, t) := runPlan s.hp kind sent.frames .fin
     let reqLine := s!"ok {method} {path} {sentCL} {showHL h} {hexOfBytes body} {e} {showTr e t}"
     let isHead := method == "HEAD"
-    let (evs, rs) := respond isHead s.rp.cl (if s.rp.status = 0 then none else some s.rp.status) s.rp.ops
-      (optTr s.rp.tr)
-    let status := (evs.filterMap fun ev => match ev with | .respHeaders st => some st | _ => none).headD 0
+    let (evs, rs) := respondInterim isHead s.rp.cl s.interim
+      (if s.rp.status = 0 then none else some s.rp.status) s.rp.ops (optTr s.rp.tr)
+    let (status, evs) := match clientFinal evs with | some r => r | none => (0, [])
     let total := chunks.flatten.length
     let early := e == "stopped" && body.length < total
     let ntr := if s.rp.trmode == "d" then distinctNames s.rp.tr else 0
@@ -201,6 +202,11 @@ def step (s : St) (line : String) : St × String :=
         ({ s with wres := b, cres := c }, a)
       else (s, "bad-op")
     | _, _, _, _ => (s, "bad-op")
+  | ["interim", codes] =>
+    match (codes.splitOn ".").mapM (fun t => t.toNat?) with
+    | some cs => if cs.all (fun c => c == 100 || c == 102 || c == 103) ∧ !cs.isEmpty then ({ s with interim := cs }, "ok")
+                 else (s, "bad-op")
+    | none => (s, "bad-op")
   | ["wres"] => if s.wres.isEmpty then (s, "bad-op") else (s, s.wres)
   | ["cres"] => if s.cres.isEmpty then (s, "bad-op") else (s, s.cres)
   | ["rawreq", m, cl, trdecl, frames, tr] =>
